@@ -78,6 +78,8 @@ def run(ch: Checker) -> None:
     ch.rule('C05.3', 'no loop that iterates self.works directly has a body that can resize it (del / insertion / _cleanup), directly or through self-calls', 2)
     ch.rule('C05.6', 'every call of _cleanup(id) passes an id known to be in self.works: inserted on every path before the call, or taken from iteration over self.works, '
                      'or the id stamped on a task created from self.works', 4)
+    ch.rule('C05.8', 'who may close: a socket owned by a work (upstream / client / work connection) is closed only from the teardown callbacks (shutdown, on_client_connection_close), '
+                     'i.e. after the executor unregistered the work\'s descriptors', 3)
     ch.rule('C05.7', 'an integer parsed from wire bytes and used as a slice bound in ChunkParser/HttpParser is range-checked (a comparison with 0 that raises or leaves) '
                      'between the conversion and the use', 1)
 
@@ -235,6 +237,10 @@ def run(ch: Checker) -> None:
                                      'outside any handler and the worker stops' % badv[0][1], witness=badv[0][2])
             else:
                 ch.ok('C05.6', f, c, 'id is known to be in self.works: %s' % verdicts[0][1])
+
+    # ---- C05.8 who may close
+    from .common import who_may_close_check
+    who_may_close_check(ch, 'C05.8')
 
     # ---- C05.7 wire integers as slice bounds
     _wire_ints(ch, prog)
